@@ -149,6 +149,15 @@ class NativeBackend:
             d[tuple(unrow(r)[k] for k in sorted(K))] = r
         return (X[0], tuple(d.values()))
 
+    def sortc(self, cs, d, X):
+        rows = list(X[1])
+        rows.sort(key=lambda r: tuple(c.fn(unrow(r)) for c in cs), reverse=not d)  # Python's own stable sort with a tuple key
+        return (X[0], tuple(rows))
+
+    def tsuffix(self, ts, a): return tuple(ts[max(a, 0):])
+    def tslice(self, ts, a, b): return tuple(ts[max(a, 0):max(b, 0)])
+    def den_terms(self, cs, ts, a, b): return len(cs) == b - a and 0 <= a and b <= len(ts) and all(self.den_x(c, ts[a + i][0]) for i, c in enumerate(cs))
+    def same_dir(self, ts, a, b, d): return all(ts[i][1] == d for i in range(max(a, 0), min(b, len(ts))))
     def snoc(self, X, r): return (X[0], X[1] + (r,))
     def prefix(self, X, i): return (X[0], X[1][:max(i, 0)])
     def nth(self, X, i): return X[1][i] if 0 <= i < len(X[1]) else mask({t: 0 for t in TAGS}, ())
@@ -215,6 +224,11 @@ def domain(kind, N, rng):
         out += [(t,) for t in terms]
         out += [(t, u) for t in terms for u in terms]
         return out
+    if kind == "Bool":
+        return [True, False]
+    if kind == "Callables":
+        es = EXPRS[2:8] + EXPRS[8:]
+        return [()] + [(e,) for e in es] + [(e, f) for e in es for f in es[:4]]
     if kind == "Row":
         return [mask(r, TAGS) for r in ALL_ROWS]
     if kind == "RS":
@@ -270,6 +284,17 @@ def direct(l, vals, B, rng):
         v["P"] = frozenset(t for t in v["Q"] if rng.random() < 0.6)
     elif l.name == "proj-full":
         v["P"] = v["X"][0]
+    elif l.name in ("sort-suffix-split", "tsuffix-len"):
+        n = len(v["ts"])
+        v["a"] = rng.randint(0, n)
+        if "b" in v:
+            v["b"] = rng.randint(v["a"], n)
+    elif l.name == "sortc-group":
+        d = v["d"]
+        grp = tuple((c, d) for c in v["cs"])
+        pre = tuple(t for t in v["ts"][:1])
+        v["ts"] = pre + grp + tuple(v["ts"][1:2])
+        v["a"], v["b"] = len(pre), len(pre) + len(grp)
     elif l.name == "slice-prefix" and v["b"] is not None:
         v["b"] = min(abs(v["b"]), len(v["X"][1]))
     elif l.name in ("join-unit",):
